@@ -49,6 +49,13 @@ BASES = {
     "frame_categorical": (S.frame(cols=[S.comp(name="g", dtype="cat:p,q"), S.comp(name="h", dtype="cat:x,y"), S.comp(name="a", dtype="int64")]),
                           {"cols": [{"name": "g", "dtype": "cat:p,q", "values": ["p", "q", "p"]}, {"name": "h", "dtype": "cat:x,y", "values": ["x", "y", "y"]},
                                     {"name": "a", "dtype": "int64", "values": [1, 2, 3]}], "index": None}),
+    # an UNORDERED, coercing MultiIndex: data levels may come in another order than the schema's (one data edit away: mixswap)
+    "frame_multi_unordered": (S.frame(cols=[S.comp(name="a", dtype="int64"), S.comp(name="b", dtype="str")],
+                                      index={"kind": "multi", "levels": [S.comp(name="k1", dtype="str"), S.comp(name="k2", dtype="int64")],
+                                             "strict": False, "ordered": False, "unique": None, "coerce": True}),
+                              {"cols": copy.deepcopy(T1["cols"][:2]),
+                               "index": {"kind": "multi", "levels": [{"values": ["p", "q", "r"], "dtype": "object", "name": "k1"},
+                                                                     {"values": [1, 2, 3], "dtype": "int64", "name": "k2"}]}}),
     # a coercing string Index (value-dependent dtype on an object index): stand-alone and under a SeriesSchema
     "index_parsing": (dict(S.comp(name="idx", dtype="str", coerce=True), kind="index"),
                       _t(index={"kind": "single", "values": ["p", "q", "r"], "dtype": "object", "name": "idx"})),
